@@ -34,6 +34,7 @@
 #include <sys/types.h>
 #include <sys/socket.h>
 #include <sys/wait.h>
+#include <sys/resource.h>
 #include <sys/queue.h>
 #include <sys/timerfd.h>
 #include <sys/ioctl.h>
@@ -276,6 +277,9 @@ static void child(char** tok, int nt)
     int m[3] = { atoi(tok[1]), atoi(tok[2]), atoi(tok[3]) };
     int devnull = open("/dev/null", O_WRONLY);
     if (devnull >= 0) { dup2(devnull, 1); }
+    if (m[2] == 2) {          /* soak mode: a long run of datagrams with a small stack, so that per-datagram growth shows early */
+        struct rlimit rl; rl.rlim_cur = rl.rlim_max = 1024 * 1024; setrlimit(RLIMIT_STACK, &rl);
+    }
 #if defined(XH_MAINLOOP)
     if (m[2] == 1) { x_of = tmpfile(); if (x_of) dup2(fileno(x_of), 1); }
 #endif
@@ -350,6 +354,13 @@ int main(void)
         int first = (tok[0][0] == 'T') ? 5 : 4;
         x_nd = 0; x_cur = 0;
         for (int i = first; i < nt && x_nd < XMAXD; i++) {
+            if (tok[i][0] == '*' && x_nd > 0) {          /* "*N": the previous datagram N times in all */
+                int rep = atoi(tok[i] + 1);
+                for (int k = 1; k < rep && x_nd < XMAXD; k++) {
+                    x_dg[x_nd] = malloc(x_len[x_nd - 1] + 1); memcpy(x_dg[x_nd], x_dg[x_nd - 1], x_len[x_nd - 1]); x_len[x_nd] = x_len[x_nd - 1]; x_nd++;
+                }
+                continue;
+            }
             size_t l = strlen(tok[i]) / 2 + 1;
             x_dg[x_nd] = malloc(l); x_len[x_nd] = unhex_(tok[i], x_dg[x_nd], l); x_nd++;
         }
@@ -357,7 +368,7 @@ int main(void)
         static int cmdno; fprintf(stderr, "\n##CMD %d\n", cmdno++); fflush(stderr);
         fflush(stdout);
         pid_t pid = fork();
-        if (pid == 0) { close(pfd[0]); x_report = pfd[1]; alarm(8); child(tok, nt); _exit(0); }
+        if (pid == 0) { close(pfd[0]); x_report = pfd[1]; alarm(x_nd > 2000 ? 40 : 8); child(tok, nt); _exit(0); }
         close(pfd[1]);
         /* collect the child's reports */
         static char rep[1 << 22]; size_t rn = 0; ssize_t k;
